@@ -23,9 +23,26 @@ def exists(lo, hi, f):
     return any(f(i) for i in range(lo, hi))
 
 
+def char_at(s, j):
+    """the one-character string at position j of s, '' when j is outside 0 <= j < len(s) (no negative indexing)"""
+    return s[j:j + 1] if j >= 0 else s[:0]
+
+
+def take(s, j):
+    """the first j characters of s (0 <= j; all of s when j > len(s))"""
+    return s[:j] if j >= 0 else s[:0]
+
+
+def drop(s, j):
+    """s without its first j characters (0 <= j; empty when j > len(s))"""
+    return s[j:] if j >= 0 else s[:0]
+
+
 def matches(s, pattern):
     """s is in the language of `pattern` (un-anchored text, re.fullmatch semantics)"""
     import re
+    if isinstance(s, (bytes, bytearray)):
+        return re.fullmatch(pattern.encode('latin-1'), bytes(s)) is not None
     return re.fullmatch(pattern, s) is not None
 
 
